@@ -7,47 +7,18 @@ from rsrc import Src, Piece
 from verus_engine import VerusFile, CANARY
 from common import Undecided
 import vhelp
+import os
+from common import VERIF, read
 
 NAME = "rename_pattern"
 ENGINE = "verus"
 PROPERTIES = {"C06": "abi_rename application: with `{0}` the symbol is pattern-prefix + Type_method + pattern-suffix (inserted exactly once, at the first placeholder), without it the symbol is the replacement, with no pattern the name is unchanged; slicing never panics"}
 F = "core/src/ast/attrs.rs"
 
-PRELUDE = r"""
-// ---- E3s: Rust strings (&str / String / Cow<str>) carried as one value type viewed as its UTF-8 byte sequence; each std operation
-// used by the two functions is given std's documented behaviour as its spec (slicing panics beyond the length: `requires`)
-#[verifier::external_body] pub struct Str { x: u8 }
-impl Clone for Str { #[verifier::external_body] fn clone(&self) -> (r: Self) ensures r == *self { unimplemented!() } }
-impl Copy for Str {}
-pub open spec fn placeholder() -> Seq<u8> { seq![0x7bu8, 0x30u8, 0x7du8] } // "{0}"
-pub open spec fn occurs_at(s: Seq<u8>, p: Seq<u8>, i: int) -> bool { 0 <= i && i + p.len() <= s.len() && s.subrange(i, i + p.len()) == p }
-impl Str {
-    pub uninterp spec fn view(&self) -> Seq<u8>;
-    #[verifier::external_body] pub fn len(&self) -> (r: usize) ensures r == self@.len() { unimplemented!() }
-    #[verifier::external_body] pub fn is_empty(&self) -> (r: bool) ensures r == (self@.len() == 0) { unimplemented!() }
-    // &s[..i]
-    #[verifier::external_body] pub fn slice_to(&self, i: usize) -> (r: Str) requires i <= self@.len() ensures r@ == self@.subrange(0, i as int) { unimplemented!() }
-    // &s[i..]
-    #[verifier::external_body] pub fn slice_from(&self, i: usize) -> (r: Str) requires i <= self@.len() ensures r@ == self@.subrange(i as int, self@.len() as int) { unimplemented!() }
-    #[verifier::external_body] pub fn split_at(&self, i: usize) -> (r: (Str, Str)) requires i <= self@.len()
-        ensures r.0@ == self@.subrange(0, i as int), r.1@ == self@.subrange(i as int, self@.len() as int) { unimplemented!() }
-    // str::find("{0}"): byte index of the FIRST occurrence
-    #[verifier::external_body] pub fn find_placeholder(&self) -> (r: Option<usize>)
-        ensures self@.len() <= isize::MAX, // a Rust allocation never exceeds isize::MAX bytes
-          match r {
-            Some(i) => occurs_at(self@, placeholder(), i as int) && forall|j: int| 0 <= j < i ==> !occurs_at(self@, placeholder(), j),
-            None => forall|j: int| !occurs_at(self@, placeholder(), j),
-        } { unimplemented!() }
-    #[verifier::external_body] pub fn starts_with(&self, p: Str) -> (r: bool) ensures r == occurs_at(self@, p@, 0) { unimplemented!() }
-    #[verifier::external_body] pub fn ends_with(&self, p: Str) -> (r: bool) ensures r == occurs_at(self@, p@, self@.len() - p@.len()) { unimplemented!() }
-    // String::from(&str) / Cow::from(&String) / .into() between string types: same text
-    #[verifier::external_body] pub fn conv(&self) -> (r: Str) ensures r@ == self@ { unimplemented!() }
-    // format! with a template made only of placeholders: the arguments' text in order
-    #[verifier::external_body] pub fn concat2(a: Str, b: Str) -> (r: Str) ensures r@ == a@ + b@ { unimplemented!() }
-    #[verifier::external_body] pub fn concat3(a: Str, b: Str, c: Str) -> (r: Str) ensures r@ == a@ + b@ + c@ { unimplemented!() }
-}
+PRELUDE_TAIL = r"""
 #[verifier::external_body] pub struct Infallible { x: u8 } // std::convert::Infallible (uninhabited; only named in the return type)
 """
+
 
 SPEC = r"""
 // ---- oracle, from the property statement / the documentation of abi_rename ("icu4x_{0}": up to one {0} for replacement)
@@ -134,7 +105,8 @@ def build(tier):
     vf = VerusFile(NAME)
     src = Src(F)
     vf.add(vhelp.HEADER)
-    vf.add(PRELUDE)
+    vf.add(read(os.path.join(VERIF, "units", "prelude", "str_model.rs")))
+    vf.add(PRELUDE_TAIL)
     vhelp.typedef(vf, src, "RenamePattern", "struct", subs=[("E1", r"\n    (replacement|insertion_index):", r"\n    pub \1:"),
                                                             ("E3s", r"replacement: String", "replacement: Str")])
     vhelp.typedef(vf, src, "RenameAttr", "struct", subs=[("E1", r"\n    pattern:", r"\n    pub pattern:")])
